@@ -284,6 +284,8 @@ class BootWorld:
         # weight is not zero and turnout_factor = results_weights / baseline_weights
         h.forall_rows(t.root, z3.And(dem >= 0, gop >= 0, t.res == dem - gop))
         h.forall_rows(t.root, z3.Implies(t.R, z3.And(self.bw > 0, self.tf * self.bw == dem + gop)))
+        self.y = c["results_normalized_margin"].t
+        h.forall_rows(t.root, z3.And(self.y * z3.ToReal(dem + gop) == z3.ToReal(t.res), -1 <= self.y, self.y <= 1))
         B = h.int("B")
         h.requires("B_ge_2", B >= 2)
         self.B = B
@@ -383,3 +385,113 @@ def lemma_abs(h, dn, dd, name):
 
 for _n, _k in AGGS.items():
     _boot_agg(_n, _k)
+
+
+def _errors(h, w):
+    t = w.t
+    u = t.root.u
+    I, R = z3.IntSort(), z3.RealSort()
+    out = {}
+    for i in (1, 2, 3, 4):
+        fn = z3.Function(f"errors_B_{i}", I, I, R)
+        out[f"errors_B_{i}"] = V(fn(u, w.draws.u), (t.nonrep.axis, w.draws))
+    return out
+
+
+@unit("C06", "unit_intervals", fns=[f"{BEM}.get_unit_prediction_intervals"])
+def unit_intervals(h):
+    w = BootWorld(h)
+    t = w.t
+    reg = {}
+    h.contracts[f"{BEM}._get_quantiles"] = quantiles_contract(reg)
+    self = w.model(**_errors(h, w))
+    a, b = h.real("alpha_a"), h.real("alpha_b")
+    h.requires("levels", 0 < a, a < b, b < 1)
+    k1, ra = h.call_method(self, "get_unit_prediction_intervals", t.rep, t.nonrep, a, "margin")
+    k2, rb = h.call_method(self, "get_unit_prediction_intervals", t.rep, t.nonrep, b, "margin")
+    if k1 == "raise" or k2 == "raise":
+        return h.fail("no_raise", f"raised {ra if k1 == 'raise' else rb}")
+    rows = z3.And(*t.nonrep.axis.facts())
+    h.ensures("lower_le_upper", z3.Implies(rows, z3.And(ra.lower.t <= ra.upper.t, rb.lower.t <= rb.upper.t)))
+    h.ensures("nested_by_level", z3.Implies(rows, z3.And(rb.lower.t <= ra.lower.t, ra.upper.t <= rb.upper.t)))
+    h.ensures("shape", ra.lower.axes == (t.nonrep.axis, ONE) and ra.upper.axes == (t.nonrep.axis, ONE))
+    h.ensures("whole_numbers", z3.Implies(rows, z3.And(z3.IsInt(ra.lower.t), z3.IsInt(ra.upper.t))))
+
+
+def _boot_int(aggname, keys):
+    @unit("C06", f"aggregate_intervals.{aggname}", fns=[f"{BEM}.get_aggregate_prediction_intervals", f"{BEM}.get_aggregate_predictions", f"{BEM}._is_top_level_aggregate"])
+    def ints(h):
+        w = BootWorld(h)
+        t = w.t
+        reg = {}
+        h.contracts[f"{BEM}._get_quantiles"] = quantiles_contract(reg)
+        h.contracts[f"{BEM}._format_called_contests"] = format_contract
+        self = w.model(**_errors(h, w))
+        lhs, rhs, stop = symlist(h, "lhs"), symlist(h, "rhs"), symlist(h, "stop")
+        for k in keys[1:]:
+            if k != "county_classification":
+                h.forall_rows(t.root, z3.Not(t.knullT[k]))
+        kind, est = h.call_method(self, "get_aggregate_predictions", t.rep, t.nonrep, t.third, list(keys), "margin", lhs_called_contests=lhs, rhs_called_contests=rhs)
+        if kind == "raise":
+            return h.ensures("predictions_raise_only_through_call_validation", res_is_validation(est))
+        a, b = h.real("alpha_a"), h.real("alpha_b")
+        h.requires("levels", 0 < a, a < b, b < 1)
+        out = []
+        for al in (a, b):
+            kind, r = h.call_method(self, "get_aggregate_prediction_intervals", t.rep, t.nonrep, t.third, list(keys), al, None, "margin", lhs_called_contests=lhs, rhs_called_contests=rhs, stop_model_call=stop)
+            if kind == "raise":
+                return h.ensures("intervals_raise_only_through_call_validation", res_is_validation(r))
+            out.append(r)
+        ra, rb = out
+        # w*y*z of a reporting unit IS its counted margin (C09 derived quantities): the interval function sums the
+        # former, the estimates table the latter -- lemma sum_congr_dom links the two group sums
+        mR_spec, dR_spec = t.gsum("R", keys, t.res)
+        for d in list(h.ctx.__dict__.get("_sums", [])):
+            if d.space is t.root and z3.eq(d.dom, dR_spec.dom) and all(n in str(d.summand) for n in ("results_normalized_margin", "baseline_weights", "turnout_factor")) and "errors_B" not in str(d.summand):
+                sums.lemma_sum_congr(h.ctx, d, dR_spec, name="lemma.sum_congr.reporting_margin")
+        # |Σ margin| <= Σ turnout per frame (lemma wavg_bounds), so a zero denominator comes with a zero numerator
+        for fr_, n_, d_ in (("R", t.res, w.bw * w.tf), ("T", t.res, w.rw), ("N", w.wyz, w.wz)):
+            _, dn = t.gsum(fr_, keys, n_)
+            _, dd = t.gsum(fr_, keys, d_)
+            lemma_abs(h, dn, dd, f"lemma.wavg_bounds.{fr_}")
+        top = (len(keys) == 1 and "postal_code" in keys) or (len(keys) == 2 and "postal_code" in keys and "district" in keys)
+        pm = est.col("pred_margin")
+        rows = z3.And(*est.axis.facts())
+        gs = frames.keyspace(list(keys), {k: z3.StringSort() for k in keys})
+        cname = gs.keyvars[keys[0]]
+        for k in keys[1:]:
+            cname = z3.Concat(cname, z3.StringVal("_"), gs.keyvars[k])
+        from pyvc.values import same_axis
+
+        h.ensures("C02.interval_rows_are_the_rows_of_the_estimates_table", same_axis(ra.lower.axes[0], est.axis) and same_axis(ra.upper.axes[0], est.axis))
+        lo_a, up_a, lo_b, up_b = ra.lower.t, ra.upper.t, rb.lower.t, rb.upper.t
+        if top:
+            L, Rr, S = lhs.mem()(cname), rhs.mem()(cname), stop.mem()(cname)
+        else:
+            L = Rr = S = z3.BoolVal(False)
+        free = z3.And(z3.Not(L), z3.Not(Rr), z3.Not(S))
+        h.ensures("uncalled_straddle", z3.Implies(z3.And(rows, free), z3.And(lo_a < pm.t, pm.t < up_a, lo_b < pm.t, pm.t < up_b)))
+        h.ensures("uncalled_nested_by_level", z3.Implies(z3.And(rows, free), z3.And(lo_b <= lo_a, up_a <= up_b)))
+        h.ensures("lower_le_upper_unless_called_or_stopped", z3.Implies(z3.And(rows, free), lo_a <= up_a))
+        if top:
+            for nm, lo, up in (("a", lo_a, up_a), ("b", lo_b, up_b)):
+                h.ensures(f"C07.called_left_lower_not_negative_unless_stopped[{nm}]", z3.Implies(z3.And(rows, L, z3.Not(S)), lo >= 0))
+                h.ensures(f"C07.called_right_upper_not_positive_unless_stopped[{nm}]", z3.Implies(z3.And(rows, Rr, z3.Not(S)), up <= 0))
+                if h.udesc["prop"] == "C07":
+                    # the literal right-hand clause of the statement (no 'unless stop-listed'): a recorded known finding
+                    h.ensures(f"C07.called_right_upper_not_positive_literal[{nm}]", z3.Implies(z3.And(rows, Rr), up <= 0), replay=lambda ev: {"target": "verif_replays:called_and_stopped", "args": [], "check": "result['upper'] <= 0"})
+                h.ensures(f"C07.stopped_uncalled_interval_contains_zero[{nm}]", z3.Implies(z3.And(rows, S, z3.Not(L), z3.Not(Rr)), z3.And(lo <= 0, 0 <= up)))
+            h.ensures("C08.summary_state_written_at_top_level", "called_contests" in self.written and "stop_model_call" in self.written)
+        else:
+            h.ensures("C08.call_state_not_touched_below_top_level", "called_contests" not in self.written and "stop_model_call" not in self.written and "aggregate_pred_margin" not in self.written)
+        h.ensures("C08.bootstrap_error_state_owner", ("divided_error_B_1" in self.written) == top, why="divided_error_B_1/2 are what get_national_summary_estimates reads: they must describe the top-level contests, so only a top-level call may write them")
+
+    return ints
+
+
+def res_is_validation(exc):
+    return exc.clsname == "BootstrapElectionModelException"
+
+
+for _n, _k in AGGS.items():
+    _boot_int(_n, _k)
